@@ -1555,3 +1555,74 @@ def _variant_payload_len(F, b, sl):
                         return None
                     best = ln if best is None else min(best, ln)
     return None if best is None or not seen else best - off
+
+
+@rule('R07.14', ['C07', 'C03'], floor=0, clause='on the read side of the wire module no 8/16-bit multiplication can overflow: a length octet is widened before it is scaled (`len as usize * 8`, never `(len * 8) as usize`)')
+def r07_14(ctx):
+    """Every checked multiplication (MIR MulWithOverflow + assert) on u8/u16 operands in src/wire outside setters / emitters:
+    the product of the operands' interval upper bounds must fit the type.  The expected number of sites is small (often
+    zero: the code widens first); the matcher is exercised on every run by the u32/usize multiplications it skips."""
+    F = ctx.F
+    MAXV = {'u8': 255, 'u16': 65535}
+    n = wide = 0
+    for k, b in sorted(F.bodies.items()):
+        if not (b.file or '').startswith('src/wire/') or '::test' in k:
+            continue
+        base = k.split('::{closure', 1)[0].rsplit('::', 1)[-1]
+        if base.startswith(('set_', 'emit', 'fill_')):
+            continue
+        adt = b.meta.get('impl_self')
+        for bi, bl in enumerate(b.blocks):
+            t = bl['t']
+            if bl['cl'] or t[0] != 'assert' or t[3].get('k') != 'overflow' or t[3].get('op') != 'Mul':
+                continue
+
+            def ty(o):
+                if o[0] == 'k':
+                    return o[1]
+                if o[0] in ('c', 'm') and not o[1][1]:
+                    return b.locals[o[1][0]]['ty']
+                return None
+            tt = ty(t[3]['a']) or ty(t[3]['b'])
+            if tt not in MAXV:
+                wide += 1
+                continue
+            n += 1
+            si = len(bl['s'])
+            ia = interval(expand(F, F.origin.operand(b, t[3]['a'], bi, si), adt), adt)[1]
+            ic = interval(expand(F, F.origin.operand(b, t[3]['b'], bi, si), adt), adt)[1]
+            short = k.split('wire::', 1)[-1]
+            if ia is not None and ic is not None and ia * ic <= MAXV[tt]:
+                ctx.ok((short, bi, 'fits'), sample=dict(fn=short, type=tt, max_product=ia * ic))
+            else:
+                ctx.bad(f"{short}|narrow-mul", f"{short} multiplies in {tt} a value that can be as large as {ia if ia is not None else 'the type maximum'} by "
+                        f"{ic if ic is not None else '?'}: for a large length octet the product overflows (panic in debug builds, a wrapped - too small - length in release builds, "
+                        "so a short buffer passes the length check)", body=b, bb=bi, line=t[5])
+    ctx.need(wide >= 5, f"checked multiplications seen by the matcher (found {wide})")
+    if n == 0:
+        ctx.ok(('no narrow multiplication on the read side',), sample=dict(wide_multiplications_skipped=wide))
+
+
+@rule('R07.15', ['C07', 'C03'], floor=1, clause='an iterator over packet options changes its own state (advances its cursor or latches its error flag) on every path on which it yields an item: it cannot yield for ever from the same position')
+def r07_15(ctx):
+    F = ctx.F
+    n = 0
+    for k, b in sorted(F.bodies.items()):
+        if not (b.file or '').startswith('src/wire/') or '::test' in k or not k.endswith('::next'):
+            continue
+        if 'Iterator' not in str(b.meta.get('impl_trait') or ''):
+            continue
+        adt = b.meta.get('impl_self')
+        writes = {w['bb'] for w in F.field_writes() if w['fn'] == b.key and w['adt'] == adt and w['kind'] in ('store', 'mutref')}
+        somes = [x[0] for x in agg_sites(b, 'std::option::Option', ['Some'])]
+        if not somes:
+            continue
+        short = k.split('wire::', 1)[-1]
+        for sbb in somes:
+            n += 1
+            if sbb in writes or sbb not in b.reachable(cut_blocks=writes - {0}):
+                ctx.ok((short, sbb), sample=dict(iterator=short, yields='Some(..)', after='a store to its own cursor / flag'))
+            else:
+                ctx.bad(f"{short}|yield-without-progress", f"{short} can yield an item without having changed any of its own fields: the next call starts from the same position and "
+                        "yields the same item again - a loop draining the iterator over a crafted option never terminates", body=b, bb=sbb)
+    ctx.need(n >= 1, "yielding paths of option iterators in src/wire")
